@@ -891,7 +891,14 @@ func deserializeArrowSerializable(targetType reflect.Type, data []byte) (reflect
 	result := reflect.New(targetType).Elem()
 	for i := range targetType.NumField() {
 		f := targetType.Field(i)
+		// Same resolution as findArrowField on the writing side: the
+		// `arrow` tag, then the name of the `vgirpc` tag.
 		tag := f.Tag.Get("arrow")
+		if tag == "" {
+			if vt := f.Tag.Get("vgirpc"); vt != "" && vt != "-" {
+				tag = parseTag(vt).Name
+			}
+		}
 		if tag == "" {
 			continue
 		}
